@@ -7,6 +7,7 @@
 package buf
 
 import (
+	"bytes"
 	"fmt"
 	"testing"
 	"testing/synctest"
@@ -253,9 +254,10 @@ func execute(s *engine.Script, o *engine.Outcome) {
 	lastFrame := make([]*liveValue, nbuf) // most recent value parsed from each buffer
 	var live []*liveValue
 
-	// The reverse direction of the same aliasing: nothing the library does (parse,
-	// accessors, serialisers called by the observation) may write into a buffer
-	// the transport owns. mirror holds what the transport itself wrote.
+	// The reverse direction of the same aliasing: nothing a parsed value does later
+	// (accessors, serialisers called by the observation) may write into a buffer
+	// the transport owns. mirror holds what the buffer held when the last parse
+	// returned plus what the transport wrote since.
 	mirror := make([][]byte, nbuf)
 	for i := range mirror {
 		mirror[i] = make([]byte, bufSize)
@@ -373,7 +375,16 @@ func execute(s *engine.Script, o *engine.Outcome) {
 			check(fmt.Sprintf("op %d: buffer %d was recycled for a %s frame", i, b, ad.Name), "recycle")
 			var res adapters.Result
 			if o.Guard("parse "+ad.Name, func() { res = ad.Parse(pool[b][off:end], ad.Arg(op.Shape)) }) {
+				copy(mirror[b], pool[b])
 				continue
+			}
+			// What the parser itself did to its input while it ran is not the
+			// property's subject; what is written into the buffer AFTER the parse has
+			// returned (by accessors, serialisers, later parses of other frames into
+			// values that still hold this memory) proves that a value shares it.
+			if !bytes.Equal(mirror[b], pool[b]) {
+				o.Probe("parser_wrote_into_its_input:" + ad.Name)
+				copy(mirror[b], pool[b])
 			}
 			if !res.OK {
 				o.Probe("reference_frame_rejected:" + ad.Name)
